@@ -3,11 +3,13 @@ import Kopf.Drv.C01
 import Kopf.Drv.C04
 import Kopf.Drv.C05
 import Kopf.Drv.C02
+import Kopf.Drv.C14
 import Kopf.Drv.C11
 import Kopf.Drv.C16
 import Kopf.Drv.C15
 import Kopf.Drv.C12
 import Kopf.Drv.C18
+import Kopf.Drv.C17
 namespace Kopf.Drv
 def echoHandler : DrvHandler := fun op args =>
   if op == "echo" then
@@ -15,5 +17,5 @@ def echoHandler : DrvHandler := fun op args =>
     | [j] => (toJ j).map (fun v => ok (ofJ v))
     | _ => none
   else none
-def allHandlers : List DrvHandler := [echoHandler, C01.handle, C04.handle, C05.handle, C02.handle, C11.handle, C16.handle, C15.handle, C12.handle, C18.handle]
+def allHandlers : List DrvHandler := [echoHandler, C01.handle, C04.handle, C05.handle, C02.handle, C14.handle, C11.handle, C16.handle, C15.handle, C12.handle, C18.handle, C17.handle]
 end Kopf.Drv
